@@ -16,9 +16,10 @@
   (`get_section_index_exact[_z]`, `has_section_exact[_z]`, `get_section_by_name_exact[_z]`, with
   `lookup_last` / `lookup_absent` saying what the expected index is), codes (`codes_named`,
   `codes_unnamed`), the machine factorisation (`machine_factor`), the assembler (`assemble_layout[_z]`);
-  the hypotheses are met by a concrete non-trivial description (last `example`).  For files WITHOUT a
-  name table in the shape of a Linux core dump with ≥ 0xffff segments: `extnum_only_partial`
-  (everything but the null section's name).
+  the hypotheses are met by a concrete non-trivial description (last `example`).  Files WITHOUT a name
+  table (`e_shstrndx` = SHN_UNDEF) are inside `wf` / `wfZ`: every section is reported with the empty
+  name (`no_name_table_names`); for the shape of a Linux core dump with ≥ 0xffff segments there is
+  in addition `extnum_only`, which asks for nothing but that shape.
 
   WHAT `wf` / `wfZ` EXCLUDE, clause by clause, and whether the property's quantifier ("every
   well-formed ELF image …") covers it:
@@ -36,12 +37,15 @@
   * `escapesOk`: the counts are where the header says (section 0 exists when an escape is used) —
     gABI's own rule; the escapes may be used although the values would fit (`xShnum` …).
   * `namesOk`, reachable name offsets: the names sit NUL-terminated in the body of section
-    `e_shstrndx`.  EXCLUDED AND COVERED BY THE PROPERTY: files with sections and `e_shstrndx` =
-    SHN_UNDEF ("the file has no section name string table", gABI) — the library takes section 0 for
-    the name table and reports bytes of the ELF header as every name: known finding `no-name-table`
-    (Spec/ElfNoNames.lean recognises the class; the check generates it on every run;
-    `extnum_only_partial` proves the rest for the one shape that is common: the kernel's core dumps
-    with ≥ 0xffff segments — which is how the "≥ 0xffff segments" of the quantifier occur in practice).  Names that are
+    `e_shstrndx`.  NOT excluded: files with sections and `e_shstrndx` = SHN_UNDEF ("the file has no
+    section name string table", gABI; the kernel's core dumps with ≥ 0xffff segments — which is how
+    the "≥ 0xffff segments" of the quantifier occur in practice — are written so): there is nothing to
+    resolve, every section is nameless whatever its `sh_name` says, so the description gives every
+    section the empty name (`namesOk` asks for that; no image is excluded by it).  Index 0 is the
+    reserved null section: a description whose section 0 "holds the names" does not describe a file
+    with names.  (The library took section 0 for the name table and reported bytes of the ELF header
+    as every name: finding `no-name-table`, repaired by fixes/C01-no-name-table.patch; the check
+    generates such files on every run.)  Names that are
     not valid UTF-8 are NOT excluded: the theorems hold for them (names are bytes here).  The library's
     `str` API reports them decoded with U+FFFD replacement; that decoding is modelled separately
     (Model/Utf8.lean, compared with CPython's decoder on every run) and applied by the driver, so the
@@ -277,44 +281,84 @@ theorem lookup_absent (d : ElfDesc) (name : Bytes) (h : d.indexOfName name = non
     ∀ s ∈ d.sections, s.name ≠ name :=
   Proofs.C01.indexOfName_none h
 
-/-! ### files without a section-name string table (`e_shstrndx` = SHN_UNDEF) — partial
+/-! ### files without a section-name string table (`e_shstrndx` = SHN_UNDEF)
 
-  FULL statement: for every well-formed description with sections and no name table
-  (`Spec.C01.wfNoNames`) the theorems above hold, in particular
-  `iterSections … = .ok obs.sections` with every name empty.
-  It is FALSE of the code (known finding `no-name-table`: the reader takes section 0 for the name
-  table and reports the bytes at file offset `sh_offset[0] + sh_name` as the name).
+  Such files are inside `wf` / `wfZ` (their sections are nameless), so every theorem above applies to
+  them; `no_name_table_names` spells out what that means for the names, and `no_name_table_lookup`
+  for the lookups (the name map has the single key `''`, which designates the last section).
 
-  PROVED (`extnum_only_partial`), for the shape of such files that occurs in practice — what the
-  Linux kernel writes for a core dump with ≥ 0xffff segments: ONE section header, SHT_NULL, carrying
-  the escapes (`Spec.C01.extnumOnly`; extra hypothesis: exactly that shape) —: construction, the file
-  header, both counts (the real segment count through PN_XNUM / `sh_info[0]`), every segment in file
-  order, and the one section with its kind and every header field; its NAME is what the finding says
-  (`Proofs.C01.nameAt`: the NUL-terminated bytes at `sh_offset[0] + sh_name[0]`, empty only when a
-  NUL sits there), not the empty name the description gives it.  So the ≥ 0xffff-segment images of
-  the quantifier are covered by theorems in the form they really have, name of the null section aside. -/
-theorem extnum_only_partial (env : Env) (d : ElfDesc) (bytes : Bytes) (obs : ElfObs)
+  `extnum_only` is the former `extnum_only_partial`, now FULL: for the shape of such files that occurs
+  in practice — what the Linux kernel writes for a core dump with ≥ 0xffff segments: ONE section
+  header, SHT_NULL, carrying the escapes (`Spec.C01.extnumOnly`) — it needs nothing but that shape (no
+  hypothesis on the placement of the regions, on the machine class, on `sh_name`): construction, the
+  file header, both counts (the real segment count through PN_XNUM / `sh_info[0]`), every segment in
+  file order, and the one section with its kind, every header field and the EMPTY name.  (Before the
+  repair of the finding `no-name-table` the name reported was `nameAt bytes sh_offset[0] sh_name[0]`,
+  bytes of the file read through section 0 taken for the name table.) -/
+
+/-- in a file without a name table every section is reported with the empty name -/
+theorem no_name_table_names (env : Env) (d : ElfDesc) (bytes : Bytes) (obs : ElfObs) (f : ElfFile)
+    (hwf : d.wfZ env = true) (hl : Layout d bytes) (ho : d.observe env = .ok obs)
+    (hf : openElf env specStructs specMachineClass bytes = .ok f) (hz : d.shstrndx = 0) :
+    ∃ secs, iterSections env f.S bytes f.header f.shstr = .ok secs ∧ secs.length = d.sections.length ∧
+      ∀ s ∈ secs, s.2.1 = [] := by
+  refine ⟨obs.sections, sections_exact_z env d bytes obs f hwf hl ho hf,
+    (Proofs.mapM_ok_inv _ _ _ (Proofs.observe_inv ho).2.1).1, ?_⟩
+  intro s hs
+  have hnames := Proofs.observe_names ho
+  have hmem : s.2.1 ∈ obs.sections.map (·.2.1) := List.mem_map.2 ⟨s, hs, rfl⟩
+  rw [hnames] at hmem
+  obtain ⟨sd, hsd, he⟩ := List.mem_map.1 hmem
+  rw [← he]
+  exact Proofs.names_empty (wfZ_facts hwf).names hz sd hsd
+
+/-- … and its lookups: the empty name designates the last section, every other name nothing -/
+theorem no_name_table_lookup (env : Env) (d : ElfDesc) (hwf : d.wfZ env = true) (hz : d.shstrndx = 0)
+    (name : Bytes) :
+    d.indexOfName name = if name = [] ∧ 0 < d.sections.length then some (d.sections.length - 1) else none := by
+  have hall := Proofs.names_empty (wfZ_facts hwf).names hz
+  cases h : d.indexOfName name with
+  | none =>
+    have habs := lookup_absent d name h
+    split
+    · rename_i hc
+      obtain ⟨rfl, hpos⟩ := hc
+      exact absurd (hall _ (List.getElem_mem hpos)) (habs _ (List.getElem_mem hpos))
+    · rfl
+  | some i =>
+    obtain ⟨hi, hname, hlast⟩ := lookup_last d name i h
+    have hn : name = [] := by rw [← hname]; exact hall _ (List.getElem_mem hi)
+    have hil : i = d.sections.length - 1 := by
+      by_cases hlt : i < d.sections.length - 1
+      · exact absurd (by rw [hn]; exact hall _ (List.getElem_mem (by omega)))
+          (hlast (d.sections.length - 1) (by omega) hlt)
+      · omega
+    rw [if_pos ⟨hn, by omega⟩, hil]
+
+theorem extnum_only (env : Env) (d : ElfDesc) (bytes : Bytes) (obs : ElfObs)
     (hx : Spec.C01.extnumOnly env d = true) (hl : Layout d bytes) (ho : d.observe env = .ok obs) :
-    ∃ f s0 nm, openElf env specStructs specMachineClass bytes = .ok f ∧
+    ∃ f s0, openElf env specStructs specMachineClass bytes = .ok f ∧
       f.data = bytes ∧ f.cls = d.cls ∧ f.le = d.le ∧ f.S = d.S ∧ f.header = obs.header ∧
-      d.sections = [s0] ∧ nm = Proofs.C01.nameAt bytes (getNatD s0.hdr "sh_offset") s0.nameOff ∧
+      d.sections = [s0] ∧
       numSections env f.S bytes f.header = .ok 1 ∧
       numSegments env f.S bytes f.header f.shstr = .ok d.segments.length ∧
       iterSegments env f.S bytes f.header f.shstr = .ok obs.segments ∧
-      iterSections env f.S bytes f.header f.shstr = .ok (obs.sections.map fun s => (s.1, nm, s.2.2)) ∧
+      iterSections env f.S bytes f.header f.shstr = .ok (obs.sections.map fun s => (s.1, [], s.2.2)) ∧
       obs.sections.map (·.1) = ["NullSection"] := by
   rw [specStructs_eq, specMachineClass_eq]
   exact Proofs.C01.extnum_gen hx hl ho
 
 /-- non-vacuity: a core file of that shape (`Proofs/ElfExample.lean` `exC`: ET_CORE, `e_shnum` = 1,
-    `e_shstrndx` = 0, PN_XNUM with the count 2 in `sh_info[0]`, a PT_NOTE and a PT_LOAD segment), which is
-    outside `wfZ` -/
+    `e_shstrndx` = 0, PN_XNUM with the count 2 in `sh_info[0]`, a PT_NOTE and a PT_LOAD segment); it is
+    also inside `wf` (a file without a name table is well formed), so it meets the hypotheses of
+    `no_name_table_names` / `no_name_table_lookup` and of every `*_exact` theorem as well -/
 example : ∃ bytes obs, Spec.C01.extnumOnly Proofs.C01.Ex.exEnv Proofs.C01.Ex.exC = true ∧
-    Proofs.C01.Ex.exC.wfZ Proofs.C01.Ex.exEnv = false ∧ Layout Proofs.C01.Ex.exC bytes ∧
+    Proofs.C01.Ex.exC.wf Proofs.C01.Ex.exEnv = true ∧ Proofs.C01.Ex.exC.shstrndx = 0 ∧
+    Layout Proofs.C01.Ex.exC bytes ∧
     Proofs.C01.Ex.exC.observe Proofs.C01.Ex.exEnv = .ok obs ∧ obs.segments.length = 2 := by
   obtain ⟨bytes, hl⟩ := Proofs.C01.Ex.exC_layout
   obtain ⟨obs, ho⟩ := Proofs.C01.Ex.exC_observes
-  refine ⟨bytes, obs, Proofs.C01.Ex.exC_extnumOnly, Proofs.C01.Ex.exC_not_wfZ, hl, ho, ?_⟩
+  refine ⟨bytes, obs, Proofs.C01.Ex.exC_extnumOnly, Proofs.C01.Ex.exC_wf, rfl, hl, ho, ?_⟩
   exact (Proofs.mapM_ok_inv _ _ _ (Proofs.observe_inv ho).2.2).1
 
 /-! ### non-vacuity of the hypotheses (`wfZ`, `Layout`, `observe`, a successful `openElf`)
